@@ -296,7 +296,7 @@ class InterpolatableFunction(ABC):
                     "Incompatable array shapes in scheduleForInterpolation(), "
                     "should not happen!"
                 )
-                validIndices = np.all(np.isfinite(fx))
+                validIndices = np.isfinite(fx)
 
             xValid = x[validIndices]
 
@@ -609,7 +609,7 @@ class InterpolatableFunction(ABC):
             fxValid = fx[validIndices]
         else:
             ## fx is 1D array
-            validIndices = np.all(np.isfinite(fx))
+            validIndices = np.isfinite(fx)
             fxValid = np.ravel(fx[validIndices])
 
         xValid = np.ravel(x[validIndices])
